@@ -20,6 +20,29 @@ struct St {
     done: usize,
     steps: u64,
     switch_weight: u32,
+    /// PCT-style strategy (Burckhardt et al.): fixed random priorities, the highest-priority
+    /// runnable thread runs, and at d drawn change points the running thread drops to the lowest
+    /// priority. None = uniform random choice at every yield point.
+    pct: Option<Pct>,
+}
+
+struct Pct {
+    prio: Vec<i64>,
+    change_points: Vec<u64>,
+}
+
+impl St {
+    fn pct_pick(&self) -> Option<usize> {
+        let p = self.pct.as_ref()?;
+        (0..self.alive.len()).filter(|&i| self.alive[i]).max_by_key(|&i| p.prio[i])
+    }
+}
+
+static STEP_HINT: AtomicU64 = AtomicU64::new(48);
+
+/// how many yield points a run of this sim typically has (used to place PCT change points)
+pub fn set_step_hint(n: u64) {
+    STEP_HINT.store(n.max(4), Ordering::SeqCst);
 }
 
 struct Shared {
@@ -86,7 +109,15 @@ pub fn yield_point(site: u16) {
         }
         let others: Vec<usize> = (0..st.alive.len()).filter(|&i| st.alive[i] && i != me).collect();
         let mut next = me;
-        if !others.is_empty() {
+        if st.pct.is_some() {
+            let step = st.steps;
+            let p = st.pct.as_mut().unwrap();
+            if p.change_points.contains(&step) {
+                let low = p.prio.iter().copied().min().unwrap_or(0) - 1;
+                p.prio[me] = low;
+            }
+            next = st.pct_pick().unwrap_or(me);
+        } else if !others.is_empty() {
             let w = st.switch_weight.max(1);
             let k = choice::draw((others.len() as u32 + 1) * w) as usize;
             if k >= 1 && k <= others.len() {
@@ -167,9 +198,26 @@ pub fn run_threads(progs: Vec<Box<dyn FnOnce() + Send + 'static>>) -> Vec<Thread
             })
             .collect();
     }
-    let weight = [1u32, 1, 2, 4][choice::draw(4) as usize];
+    // swarm knob: scheduling strategy of this run
+    let strat = choice::draw(6);
+    let weight = [1u32, 1, 2, 4, 1, 1][strat as usize];
+    let pct = if strat >= 4 && n > 1 {
+        let d = 1 + choice::draw(3) as usize;
+        let hint = STEP_HINT.load(Ordering::SeqCst) as u32;
+        // a random permutation as priorities
+        let mut prio: Vec<i64> = (0..n as i64).collect();
+        for i in (1..n).rev() {
+            let j = choice::draw(i as u32 + 1) as usize;
+            prio.swap(i, j);
+        }
+        let change_points = (0..d).map(|_| 1 + choice::draw(hint) as u64).collect();
+        Some(Pct { prio, change_points })
+    } else {
+        None
+    };
+    let is_pct = pct.is_some();
     let sh = Arc::new(Shared {
-        m: Mutex::new(St { current: None, alive: vec![true; n], done: 0, steps: 0, switch_weight: weight }),
+        m: Mutex::new(St { current: None, alive: vec![true; n], done: 0, steps: 0, switch_weight: weight, pct }),
         cv: Condvar::new(),
     });
     *CURRENT.lock().unwrap_or_else(|e| e.into_inner()) = Some(sh.clone());
@@ -209,6 +257,9 @@ pub fn run_threads(progs: Vec<Box<dyn FnOnce() + Send + 'static>>) -> Vec<Thread
                 let alive: Vec<usize> = (0..st.alive.len()).filter(|&k| st.alive[k]).collect();
                 if alive.is_empty() {
                     st.current = None;
+                } else if let Some(nx) = st.pct_pick() {
+                    crate::tr!("  T{} done -> T{}", i, nx);
+                    st.current = Some(nx);
                 } else {
                     let k = if alive.len() > 1 { choice::draw(alive.len() as u32) as usize } else { 0 };
                     crate::tr!("  T{} done -> T{}", i, alive[k]);
@@ -220,8 +271,8 @@ pub fn run_threads(progs: Vec<Box<dyn FnOnce() + Send + 'static>>) -> Vec<Thread
         handles.push(h);
     }
     {
-        let first = if n > 1 { choice::draw(n as u32) as usize } else { 0 };
         let mut st = sh.m.lock().unwrap_or_else(|e| e.into_inner());
+        let first = if is_pct { st.pct_pick().unwrap_or(0) } else if n > 1 { choice::draw(n as u32) as usize } else { 0 };
         st.current = Some(first);
         sh.cv.notify_all();
         while st.done < n {
